@@ -368,3 +368,70 @@ def bind_args(call: ast.Call, func, skip_self: bool = True) -> dict:
         if k.arg and (k.arg in names or k.arg in kwonly):
             out[k.arg] = k.value
     return out
+
+
+def package_calls(repo: "Repo", attr: str) -> list[ast.Call]:
+    """All call sites in the package whose callee's last name component is `attr` (who-may-call by unique method name)."""
+    idx = getattr(repo, "_call_index", None)
+    if idx is None:
+        idx = {}
+        for m in repo.all_modules():
+            for n in ast.walk(m.tree):
+                if isinstance(n, ast.Call):
+                    idx.setdefault(last_attr(n.func), []).append(n)
+        repo._call_index = idx
+    return list(idx.get(attr, []))
+
+
+def constructions(repo: "Repo", cls_name: str) -> list[ast.Call]:
+    return package_calls(repo, cls_name)
+
+
+def clone(expr: ast.AST) -> ast.AST:
+    return ast.parse(u(expr), mode="eval").body
+
+
+def local_defs(func) -> dict:
+    """name -> value expr for locals assigned exactly once in the function (simple Name targets, not loop variables)."""
+    counts, vals = {}, {}
+    for n in walk_body(func):
+        if isinstance(n, ast.Assign):
+            for t in n.targets:
+                if isinstance(t, ast.Name):
+                    counts[t.id] = counts.get(t.id, 0) + 1
+                    vals[t.id] = n.value
+                else:
+                    for x in ast.walk(t):
+                        if isinstance(x, ast.Name) and isinstance(x.ctx, ast.Store):
+                            counts[x.id] = counts.get(x.id, 0) + 2
+        elif isinstance(n, (ast.AugAssign, ast.AnnAssign)) and isinstance(n.target, ast.Name):
+            counts[n.target.id] = counts.get(n.target.id, 0) + 2
+        elif isinstance(n, (ast.For, ast.AsyncFor, ast.comprehension)):
+            for t in ast.walk(n.target):
+                if isinstance(t, ast.Name):
+                    counts[t.id] = counts.get(t.id, 0) + 2
+        elif isinstance(n, ast.NamedExpr) and isinstance(n.target, ast.Name):
+            counts[n.target.id] = counts.get(n.target.id, 0) + 2
+        elif isinstance(n, (ast.With, ast.AsyncWith)):
+            for it in n.items:
+                if it.optional_vars is not None:
+                    for t in ast.walk(it.optional_vars):
+                        if isinstance(t, ast.Name):
+                            counts[t.id] = counts.get(t.id, 0) + 2
+    return {k: v for k, v in vals.items() if counts.get(k) == 1}
+
+
+def inline_node(expr: ast.AST, defs: dict, depth: int = 0) -> ast.AST:
+    """Fresh copy of expr with single-assignment locals substituted by their definitions (symbolic inlining)."""
+
+    class T(ast.NodeTransformer):
+        def visit_Name(self, n):
+            if isinstance(n.ctx, ast.Load) and n.id in defs and depth < 10:
+                return inline_node(defs[n.id], defs, depth + 1)
+            return n
+
+    return T().visit(clone(expr))
+
+
+def inline(expr: ast.AST, defs: dict) -> str:
+    return u(inline_node(expr, defs))
